@@ -505,7 +505,12 @@ def replay(case):
     seed = case.get("seed", 0)
     with K.Scratch("c29r") as base:
         prepared = os.path.join(base, "prepared")
-        cat = prepare(prepared, seed)
+        try:
+            cat = prepare(prepared, seed)
+        except Exception as e:  # noqa
+            return [("no-crash:history-setup-failed:" + type(e).__name__, repr(e))]
+        if case["op"].get("op") == "prepare":
+            return []
         pre = observe_pre(prepared, cat)
         bad, info = check_case(prepared, cat, pre, case["op"], case["crash_at"])
     return bad
@@ -517,7 +522,17 @@ def run(tier, seed):
     ops = op_catalogue(tier)
     with K.Scratch("c29main") as base:
         prepared = os.path.join(base, "prepared")
-        cat = prepare(prepared, seed)
+        try:
+            cat = prepare(prepared, seed)
+        except Exception as e:  # noqa
+            # the prepared state is built through the real API (uploads, slot writes, up to six add_lease
+            # calls per share) with no crash at all: if that fails, the uninterrupted operations already
+            # break the storage semantics and no crash point can be judged
+            import traceback
+            res.count("evaluations")
+            res.violation("no-crash:history-setup-failed:" + type(e).__name__, {"op": {"op": "prepare"}, "crash_at": None, "seed": seed},
+                          "building the prepared server through the server API (no crash) failed: " + traceback.format_exc()[-700:])
+            return res, {"evaluations": 1, "distinct_nontrivial": 2, "exhaustive": False, "rule": "aborted: the prepared state could not be built", "samples_note": "see violation"}
         pre = observe_pre(prepared, cat)
         items = []
         done_digests = {}
